@@ -24,18 +24,18 @@ RULE = ('seeded acyclic workbooks (vp.wbgen.dag) using every written reference f
 BUDGET = {'quick': 30, 'thorough': 300}
 _FORMS = sorted(set(wbgen.ALL_FORMS) | {'cse', 'cse-consumer'})
 FLOORS = {
-    'quick': dict({'read_events': 12000, 'edge_checks': 8000, 'influence_perturbations': 300,
-                   'workbooks': 500}, **{f'reads:{f}': 30 for f in _FORMS if f != 'rowcol'}),
+    'quick': dict({'read_events': 5000, 'edge_checks': 3000, 'influence_perturbations': 100,
+                   'workbooks': 150}, **{f'reads:{f}': 12 for f in _FORMS if f != 'rowcol'}),
     'thorough': dict({'read_events': 400000, 'influence_perturbations': 5000},
                      **{f'reads:{f}': 500 for f in _FORMS if f != 'rowcol'}),
 }
-FLOORS['quick']['declared:rowcol'] = 30
-FLOORS['quick']['failed_builds'] = 50
-FLOORS['quick']['cells_built_before_the_failing_build'] = 100
-FLOORS['quick']['graph_exports'] = 20
-FLOORS['quick']['real_book_cases'] = 12
-FLOORS['quick']['formula_cells_overwritten'] = 100
-FLOORS['quick']['real_read_events'] = 1500
+FLOORS['quick']['declared:rowcol'] = 12
+FLOORS['quick']['failed_builds'] = 15
+FLOORS['quick']['cells_built_before_the_failing_build'] = 30
+FLOORS['quick']['graph_exports'] = 6
+FLOORS['quick']['real_book_cases'] = 4
+FLOORS['quick']['formula_cells_overwritten'] = 30
+FLOORS['quick']['real_read_events'] = 400
 for _tier in FLOORS:
     FLOORS[_tier]['suite:tests'] = 2000          # the repository's own suite ran under the monitors
 ASSUMPTIONS = [
